@@ -931,13 +931,28 @@ func ruleBTPure(c *Ctx) {
 	for _, b := range e.Builders {
 		key := fnKey(b.Fn) + "/pure"
 		bad := ""
-		for _, blk := range b.Fn.Blocks {
-			for _, in := range blk.Instrs {
-				if g := mutableStateOperand(P, in); g != nil {
-					bad = "uses the package-level container " + globalKey(g) + " at " + P.pos(in.Pos())
+		// the builder itself and the non-builder helpers it calls
+		seenF := map[*ssa.Function]bool{}
+		var scan func(f *ssa.Function, d int)
+		scan = func(f *ssa.Function, d int) {
+			if f == nil || seenF[f] || f.Blocks == nil || d > 3 {
+				return
+			}
+			seenF[f] = true
+			for _, blk := range f.Blocks {
+				for _, in := range blk.Instrs {
+					if g := mutableStateOperand(P, in); g != nil {
+						bad = "uses the package-level container " + globalKey(g) + " at " + P.pos(in.Pos())
+					}
+				}
+			}
+			for _, cs := range callsIn(f) {
+				if cs.Static != nil && P.isModuleFunc(cs.Static) && e.byFn[cs.Static] == nil {
+					scan(cs.Static, d+1)
 				}
 			}
 		}
+		scan(b.Fn, 0)
 		c.Check(bad == "", key, P.pos(b.Fn.Pos()), "no package-level state besides the registry", "a codec builder "+bad+": the codec returned can be one built earlier for a different schema (or type)")
 	}
 }
